@@ -267,6 +267,11 @@ def run(rep, wd, tier, seed):
         for t in o:
             t['tid'] = len(traces)
             traces.append(t)
+    # two writers alive at the same time (one per code page), fed alternately; each then inspects its own files
+    for o in isocheck.lockstep('harness.c17', '_drive_threads', [(seed, k) for k in range(20, 24)], procs=2):
+        for t in o:
+            t['tid'] = len(traces)
+            traces.append(t)
     batches = [{'consts': None, 'traces': p} for p in core.split(traces, 6)] + [{'consts': consts2, 'traces': traces2}] + extra_batches
     cfgs = {}
     for b in extra_batches:
